@@ -97,7 +97,7 @@ Definition tensor_pd (T : list (list (list Q))) : pd :=
                                                     (combine (range (length (snd jy))) (snd jy)))
                                      (combine (range (length (snd ix))) (snd ix))))
               (combine (range (length T)) T)).
-Definition pd_dist (t : pd) : dist := mkDist (Expl (keys t)) t true Linear None.
+Definition pd_dist (t : pd) : dist := mkDist (Expl (keys t)) t false Linear None.   (* dense: no trimming of tiny probabilities *)
 Definition cmi_data (t : pd) (n : nat) (X Y Z : list nat) : option rdata :=
   match coinformation n [X; Y] Z with
   | Some tm => Some (RLin (hdata (pd_dist t) (hmerge tm)))
